@@ -332,14 +332,23 @@ def run(prog: Program, rep, tier="quick"):
         raise AnalysisError("_format_string: no quoting condition understood (unknown writer shape)")
     # the quoted branch wraps the escaped value in quotes
     quoted_ok = False
+    # a local bound once to `_escape_value(value)` stands for that call (`escaped = _escape_value(value); return b'"' + escaped + b'"'`)
+    once_ = {}
+    for x in ast.walk(fmt.node):
+        if isinstance(x, (ast.Assign, ast.AnnAssign)) and getattr(x, "value", None) is not None:
+            t_ = x.targets[0] if isinstance(x, ast.Assign) else x.target
+            if isinstance(t_, ast.Name):
+                once_.setdefault(t_.id, []).append(x.value)
+    esc_names = {k for k, v in once_.items() if len(v) == 1 and isinstance(v[0], ast.Call) and callee_name(v[0]) == "_escape_value"}
     for r in ast.walk(fmt.node):
         if isinstance(r, ast.Return) and isinstance(r.value, ast.BinOp):
             txt = norm(r.value)
-            if txt.startswith("b'\"' +") and txt.endswith("+ b'\"'") and "_escape_value" in txt:
+            if txt.startswith("b'\"' +") and txt.endswith("+ b'\"'") and ("_escape_value" in txt or any(
+                    isinstance(y, ast.Name) and y.id in esc_names for y in ast.walk(r.value))):
                 quoted_ok = True
     rep.ob("R20.2", CFG_PY, "_format_string", "quoted branch is '\"' + escape(value) + '\"'", quoted_ok, "", fmt.node.lineno)
-    unq = [r for r in ast.walk(fmt.node) if isinstance(r, ast.Return) and isinstance(r.value, ast.Call)
-           and callee_name(r.value) == "_escape_value"]
+    unq = [r for r in ast.walk(fmt.node) if isinstance(r, ast.Return) and ((isinstance(r.value, ast.Call) and callee_name(r.value) == "_escape_value")
+                                                                          or (isinstance(r.value, ast.Name) and r.value.id in esc_names))]
     rep.ob("R20.2", CFG_PY, "_format_string", "unquoted branch still escapes", bool(unq), "", fmt.node.lineno)
     if Q_edge and starts != {"startswith", "endswith"} and not any(
             isinstance(x, ast.Subscript) for x in ast.walk(fmt.node)):
